@@ -160,10 +160,11 @@ class Cell:
 class Arr:
     """A numpy 1-D array reference: (cell, offset, length) - slices share the cell."""
 
-    def __init__(self, cell: Cell, lo=0, n=None):
+    def __init__(self, cell: Cell, lo=0, n=None, col2d=False):
         self.cell = cell
         self.lo = lo
         self.n = cell.val.n if n is None else n
+        self.col2d = col2d  # an (n, 1) column view of the same data
 
     @staticmethod
     def new(vec: Vec, region="FRESH", dtype=None):
